@@ -143,7 +143,10 @@ func (corSelf *CorDef[T]) YieldFrom(target *CorDef[T], in T) T {
 		return result
 	}
 
-	target.receive(corSelf, in)
+	if !target.receive(corSelf, in) {
+		// the target is done: nobody would ever answer
+		return result
+	}
 
 	// fmt.Println(corSelf, "Wait for", "result")
 	result, _ = <-corSelf.resultCh
@@ -152,14 +155,16 @@ func (corSelf *CorDef[T]) YieldFrom(target *CorDef[T], in T) T {
 	return result
 }
 
-func (corSelf *CorDef[T]) receive(cor *CorDef[T], in T) {
+func (corSelf *CorDef[T]) receive(cor *CorDef[T], in T) (accepted bool) {
 	corSelf.doCloseSafe(func() {
 		if corSelf.opCh != nil {
 			// fmt.Println(corSelf, "Wait for", "receive", cor, in)
 			corSelf.opCh <- &CorOp[T]{cor: cor, val: in}
 			// fmt.Println(corSelf, "Wait for", "receive", "done")
+			accepted = true
 		}
 	})
+	return accepted
 }
 
 // YieldFromIO Yield from a given MonadIO
@@ -192,6 +197,9 @@ func (corSelf *CorDef[T]) IsStarted() bool {
 func (corSelf *CorDef[T]) close() {
 	corSelf.isClosed.Set(true)
 
+	// A sender parked on the full request buffer holds closedM: make room first
+	corSelf.releasePending()
+
 	corSelf.closedM.Lock()
 	if corSelf.resultCh != nil {
 		close(corSelf.resultCh)
@@ -200,6 +208,32 @@ func (corSelf *CorDef[T]) close() {
 		close(corSelf.opCh)
 	}
 	corSelf.closedM.Unlock()
+
+	corSelf.releasePending()
+}
+
+// releasePending Requests that were accepted but never served: release their callers
+// (zero value) instead of leaving them blocked in YieldFrom forever.
+func (corSelf *CorDef[T]) releasePending() {
+	if corSelf.opCh == nil {
+		return
+	}
+	for {
+		select {
+		case op, more := <-corSelf.opCh:
+			if !more {
+				return
+			}
+			if op != nil && op.cor != nil {
+				cor := op.cor
+				cor.doCloseSafe(func() {
+					cor.resultCh <- *new(T)
+				})
+			}
+		default:
+			return
+		}
+	}
 }
 
 func (corSelf *CorDef[T]) doCloseSafe(fn func()) {
@@ -207,8 +241,12 @@ func (corSelf *CorDef[T]) doCloseSafe(fn func()) {
 		return
 	}
 	corSelf.closedM.Lock()
+	defer corSelf.closedM.Unlock()
+	if corSelf.IsDone() {
+		// closed while waiting for the lock: its channels are closed
+		return
+	}
 	fn()
-	corSelf.closedM.Unlock()
 }
 
 // Cor Cor utils instance
